@@ -15,7 +15,8 @@ PROP = {
                     "typographic operator spellings: the alias rune and its neighbours do not spell a comment opener in either spelling (noopen)"],
     "residue": "AST equality between layout variants follows from token-list equality only because the parser reads nothing but the token stream; that step is observed (printed ASTs of variant and canonical layout are compared on every generated program), the parser model belongs to C03/C04. Wall-clock linearity is not proved; the fuel bound length+2 is.",
     "correspondence_only": ["AST equality of layout variants (Parser.Parse on variant vs canonical layout)",
-                            "line carried by a syntax error equals the line of the offending token (stray-token cases)",
+                            "line carried by a syntax error equals the line of the offending token: error-line family (24 kinds of injected syntax error - missing comma in map/list/arguments/parameters, wrong or missing closer, missing then/else/catch/colon, bad let/func header, stray token - inside generated programs under multi-line layouts with LF, CRLF, line comments and block comments containing LF; the offending token is known by construction, its line is computed from the source text and equals the line of that token in the observed stream, which the model reproduces) and stray-token cases; the parser model Syn/Parse.v returns errors without position, so this is observed, not proved",
+                            "programs whose names are quoted identifiers spelling keywords parse (let 'if' = 1; 'if'+1, {'case':1}.'case' for every keyword)",
                             "string literal evaluates to the string it spells (Generate + Eval on every literal case)"],
 }
 
